@@ -562,10 +562,10 @@ where
         IT: IntoIterator<Item = (I, P)>,
     {
         let iter = iter.into_iter();
-        let (min, max) = iter.size_hint();
-        let mut store = if let Some(max) = max {
-            Self::with_capacity_and_hasher(max, <_>::default())
-        } else if min > 0 {
+        // only the lower bound is guaranteed: the upper bound may be far above
+        // what the iterator will actually yield
+        let (min, _) = iter.size_hint();
+        let mut store = if min > 0 {
             Self::with_capacity_and_hasher(min, <_>::default())
         } else {
             Self::with_hasher(<_>::default())
